@@ -14,7 +14,9 @@ package prometheus
 
 import (
 	"bufio"
+	"context"
 	"encoding/json"
+	"log/slog"
 	"math/rand"
 	"net"
 	"os"
@@ -51,6 +53,21 @@ func (d *vmDB) GetIPInfo(ip net.IP) (ipinfo.IPInfo, error) {
 	x := int(ip[len(ip)-1]) % 3
 	return vfLocTuple(x + 1), nil
 }
+
+// log sink of the run: discards everything; while `slow` is set it accepts debug records and takes its time over the
+// "Reporting tunnel time." record that reportTunnelTime emits between reading a client's start time and resetting it
+// (a slow log sink is part of the environment, not of the code under test)
+type vmLog struct{ slow *atomic.Bool }
+
+func (h vmLog) Enabled(_ context.Context, l slog.Level) bool { return l >= slog.LevelWarn || h.slow.Load() }
+func (h vmLog) Handle(_ context.Context, r slog.Record) error {
+	if h.slow.Load() && r.Message == "Reporting tunnel time." {
+		time.Sleep(50 * time.Microsecond)
+	}
+	return nil
+}
+func (h vmLog) WithAttrs([]slog.Attr) slog.Handler { return h }
+func (h vmLog) WithGroup(string) slog.Handler      { return h }
 
 type vmConn struct {
 	id    int
@@ -97,6 +114,11 @@ func TestVerifMetricsConcurrent(t *testing.T) {
 	saved := now
 	now = func() time.Time { return vfBase.Add(time.Duration(clock.Load()) * unit) }
 	defer func() { now = saved }()
+
+	var slowLog atomic.Bool
+	savedLog := slog.Default()
+	slog.SetDefault(slog.New(vmLog{slow: &slowLog}))
+	defer slog.SetDefault(savedLog)
 
 	db := &vmDB{}
 	m, err := NewServiceMetrics(db)
@@ -187,6 +209,16 @@ func TestVerifMetricsConcurrent(t *testing.T) {
 			bursts++
 			scrape()
 			tick(1 + rep%2)
+			// several scrapes AT ONCE while the clients' periods are unreported (and the log sink is slow): however many
+			// scrapers run simultaneously, the interval must be added exactly once
+			slowLog.Store(true)
+			together(4, func(g int, lg func(map[string]any)) {
+				if _, err := reg.Gather(); err != nil {
+					t.Errorf("HARNESS-ERROR: gather: %v", err)
+				}
+				gathers.Add(1)
+			})
+			slowLog.Store(false)
 			closeOne := func(g int, lg func(map[string]any)) {
 				c := bc[g]
 				if c.udp != nil {
